@@ -646,7 +646,8 @@ func decodeKeyNotFoundStream(s *Stream, start int64) (*structFieldSet, string, e
 				if !s.read() {
 					return nil, "", errors.ErrUnexpectedEndOfJSON("string", s.totalOffset())
 				}
-				buf, cursor, p = s.statForRetry()
+				// the escaped character has arrived: it is skipped, not examined
+				buf, cursor, p = s.stat()
 			}
 		case nul:
 			s.cursor = cursor
